@@ -18,6 +18,11 @@ EXPLANATION = (
     "store; the tested record is the one taken from HandlerEvent::PutRecord. store.put has no caller besides record_received and put_record.")
 ASSUMPTIONS = ["`source` is the authenticated remote peer id of the connection (libp2p-swarm contract)",
                "a RecordStore implementation other than MemoryStore may do anything inside put/add_provider (trait contract)"]
+TECHNIQUE = ("All patterns are evaluated on a normalised view of the MIR facts (vrules/lib_kad.canon): parameters by position, every "
+             "single-definition local expanded to its initialiser, closure captures by index, trivial crate-local helpers (accessors, one-comparison "
+             "predicates, one-line constructors) replaced by their bodies, private fields resolved by their type, comparisons normalised over operand "
+             "order / mirrored operators / method-call form / `!`, guard sets closed under bool hoisting. Behaviour-preserving refactorings that must stay "
+             "silent are archived in /verif/neutral/kad (01-12 and x1-author-combinators.diff).")
 SELFTEST = [
     {"mutation": "seeded C43: publisher==local guard weakened with `&& self.store.get(&record.key).is_some()`", "caught_by": "publisher/record_received: store.put only if the publisher is not the local node"},
     {"mutation": "AddProvider arm: `provider.node_id != source` -> `==`", "caught_by": "source/provider_received only for provider.node_id == source"},
@@ -28,33 +33,13 @@ SELFTEST = [
 
 BH = r"^libp2p_kad::behaviour::Behaviour::"
 HE = r"behaviour::Behaviour as libp2p_swarm::NetworkBehaviour>::on_connection_handler_event$"
-LOCALKEY = "libp2p_kad::kbucket::key::Key::preimage(libp2p_kad::kbucket::KBucketsTable::local_key(self.kbuckets))"
+LOCALKEY = None      # resolved in check(): `self.<kbuckets>.<local_key>.<preimage>` (accessor helpers are shown inlined)
 STORE = r"record::store::RecordStore::(\w+)$|RecordStore>::(\w+)$"
 
 
 def eq_edges(b, a_pat, c_pat, want_equal):
-    """Edges on which `a == c` has the given truth; recognises PartialEq::eq/ne and cmp::impls::eq/ne in both operand orders."""
-    out = set()
-    for bi in b.live:
-        info = b.switch_info(bi)
-        if not info:
-            continue
-        cond, labs = info
-        if cond[0] != "call" or len(cond[2]) != 2:
-            continue
-        m = re.search(r"(?:PartialEq>?|cmp::impls)::(eq|ne)$", strip_generics(cond[1]))
-        if not m:
-            continue
-        x, y = render(cond[2][0]), render(cond[2][1])
-        if not ((re.search(a_pat, x) and re.search(c_pat, y)) or (re.search(a_pat, y) and re.search(c_pat, x))):
-            continue
-        for t, ls in labs.items():
-            if len(ls) != 1:
-                continue
-            truth = (list(ls)[0] == "true") == (m.group(1) == "eq")
-            if truth == want_equal:
-                out.add((bi, t))
-    return out
+    """Edges on which `a == c` has the given truth (eq/ne, either operand order, `!`, hoisted into a bool local)."""
+    return lk.rel_edges(b, a_pat, c_pat, "==" if want_equal else "!=")        # lk.passes() closes them under bool hoisting
 
 
 def store_calls(b):
@@ -62,24 +47,37 @@ def store_calls(b):
 
 
 def check(ctx):
-    prog = ctx.prog
+    global LOCALKEY
+    prog = lk.canon(ctx)
+    bh = r"behaviour::Behaviour$"
+    KB_ = lk.fld(prog, bh, r"^kbucket::KBucketsTable<")
+    STORE_ = lk.fld(prog, bh, r"^TStore$")
+    QUEUE_ = lk.fld(prog, bh, r"^std::collections::VecDeque<libp2p_swarm::ToSwarm<")
+    FILT_ = lk.fld(prog, bh, r"StoreInserts$")
+    LOCALKEY = "self.%s.%s.%s" % (KB_, lk.fld(prog, r"kbucket::KBucketsTable$", r"^TKey$"), lk.fld(prog, r"kbucket::key::Key$", r"^T$"))
     h = ctx.body(K, HE)
     pr = ctx.body(K, BH + r"provider_received$")
     rr = ctx.body(K, BH + r"record_received$")
+    PROV = lk.arg_of_type(pr, r"protocol::KadPeer$")                 # parameters identified by type, not by position
+    PKEY = lk.arg_of_type(pr, r"record::Key$")
+    RECA = lk.arg_of_type(rr, r"record::Record$")
+    EV = lk.arg_of_type(h, r"HandlerEvent$")
+    SRC = lk.arg_of_type(h, r"PeerId$")
     # ------------------------------------------------------------------ A: source check
     calls = prog.callers(K, BH + r"provider_received$")
     ctx.ob("source", "provider_received is called only from the inbound AddProvider handler", [s.body.npath for s in calls] == [h.npath], msg=str([s.body.short for s in calls]))
-    SRC_OK = eq_edges(h, r"^event@AddProvider\.provider\.node_id$", r"^source$", True)
-    SRC_BAD = eq_edges(h, r"^event@AddProvider\.provider\.node_id$", r"^source$", False)
+    SRC_OK = eq_edges(h, "^" + EV + r"@AddProvider\.provider\.node_id$", "^" + SRC + "$", True)
+    SRC_BAD = eq_edges(h, "^" + EV + r"@AddProvider\.provider\.node_id$", "^" + SRC + "$", False)
     ctx.ob("source", "floor:provider.node_id == source test", len(SRC_OK) == 1 and len(SRC_BAD) == 1, lk.where(h), nontrivial=False, msg="%s %s" % (SRC_OK, SRC_BAD))
-    src_local = [l for l, n in h.names.items() if n == "source"]
-    ctx.ob("source", "`source` is the peer-id parameter of on_connection_handler_event", len(src_local) == 1 and 1 <= src_local[0] <= h.argc, lk.where(h), "local %s of %d args" % (src_local, h.argc))
+    tys = [str(x) for x in h.locals[1:h.argc + 1]]
+    ctx.ob("source", "the compared id is the peer-id parameter of on_connection_handler_event, the event its event parameter", h.argc == 4 and "PeerId" in tys[1] and "HandlerEvent" in tys[3], lk.where(h), str(tys)[:200])
     for s in [x for x in calls if x.body is h]:
-        ctx.ob("source", "provider_received only for provider.node_id == source", bool(SRC_OK) and h.must_pass_edges(s.bb, SRC_OK), s.loc(),
+        ctx.ob("source", "provider_received only for provider.node_id == source", lk.passes(h, s.bb, SRC_OK), s.loc(),
                "every path to provider_received(..) passes the edge on which the announced provider is the sending peer")
-        ctx.guarded("source", "provider_received only in the AddProvider arm", s, lambda c, r, l: l == "AddProvider" and r == "discr(event)", "HandlerEvent::AddProvider")
+        ctx.guarded("source", "provider_received only in the AddProvider arm", s, lambda c, r, l: l == "AddProvider" and r == "discr(%s)" % EV, "HandlerEvent::AddProvider")
         t = R(h, s)
-        ctx.ob("source", "the accepted provider is the compared provider, with the announced key", t == "libp2p_kad::behaviour::Behaviour::provider_received(self, event@AddProvider.key, event@AddProvider.provider)", s.loc(), t)
+        av = sorted(render(a) for a in h.site_expr(s)[2][1:])
+        ctx.ob("source", "the accepted provider is the compared provider, with the announced key", av == sorted([EV + "@AddProvider.key", EV + "@AddProvider.provider"]), s.loc(), t)
     if SRC_BAD:
         reach = h.reachable(tg(SRC_BAD))
         bad_calls = [x for x in h.call_sites() if x.bb in reach and re.search(r"provider_received$|RecordStore|VecDeque::push_back$", strip_generics(h.call_name(x.term)))]
@@ -87,21 +85,21 @@ def check(ctx):
     direct = [x for x in store_calls(h) if re.search(r"add_provider$|::put$", strip_generics(h.call_name(x.term)))]
     ctx.ob("source", "the handler itself never stores records or providers directly", not direct, lk.where(h), str([R(h, x)[:80] for x in direct]))
     # ------------------------------------------------------------------ B: local check
-    NOT_LOCAL = eq_edges(pr, r"^provider\.node_id$", "^" + re.escape(LOCALKEY) + "$", False)
-    IS_LOCAL = eq_edges(pr, r"^provider\.node_id$", "^" + re.escape(LOCALKEY) + "$", True)
+    NOT_LOCAL = eq_edges(pr, "^" + PROV + r"\.node_id$", "^" + re.escape(LOCALKEY) + "$", False)
+    IS_LOCAL = eq_edges(pr, "^" + PROV + r"\.node_id$", "^" + re.escape(LOCALKEY) + "$", True)
     ctx.ob("local", "floor:provider.node_id != local test", len(NOT_LOCAL) == 1 and len(IS_LOCAL) == 1, lk.where(pr), nontrivial=False, msg="%s %s" % (NOT_LOCAL, IS_LOCAL))
     ap = [s for s in store_calls(pr) if strip_generics(pr.call_name(s.term)).endswith("add_provider")]
     ctx.floor("local", "store.add_provider", ap, 1, exact=True)
-    REC = "libp2p_kad::record::ProviderRecord::ProviderRecord{key: key, provider: provider.node_id, expires: "
+    REC = "libp2p_kad::record::ProviderRecord::ProviderRecord{key: %s, provider: %s.node_id, expires: " % (PKEY, PROV)
     for s in ap:
-        ctx.ob("local", "add_provider only if the provider is not the local node", bool(NOT_LOCAL) and pr.must_pass_edges(s.bb, NOT_LOCAL), s.loc(), "every path to store.add_provider passes provider.node_id != local_key.preimage()")
+        ctx.ob("local", "add_provider only if the provider is not the local node", lk.passes(pr, s.bb, NOT_LOCAL), s.loc(), "every path to store.add_provider passes provider.node_id != local_key.preimage()")
         a = render(pr.site_expr(s)[2][1])
-        ctx.ob("local", "the stored provider is the verified node_id", a.startswith(REC) and a.endswith("addresses: provider.multiaddrs}"), s.loc(), a[:200])
-        ctx.guarded("local", "direct storing only in Unfiltered mode", s, lambda c, r, l: l == "Unfiltered" and r == "discr(self.record_filtering)", "StoreInserts::Unfiltered")
+        ctx.ob("local", "the stored provider is the verified node_id", a.startswith(REC) and a.endswith("addresses: %s.multiaddrs}" % PROV), s.loc(), a[:200])
+        ctx.guarded("local", "direct storing only in Unfiltered mode", s, lambda c, r, l: l == "Unfiltered" and r == "discr(self.%s)" % FILT_, "StoreInserts::Unfiltered")
     evs = [s for s in pr.call_sites(r"VecDeque::push_back$") if "InboundRequest::AddProvider" in R(pr, s)]
     ctx.floor("local", "AddProvider events", evs, 2)
     for s in evs:
-        ctx.ob("local", "no AddProvider event for the local node as provider", bool(NOT_LOCAL) and pr.must_pass_edges(s.bb, NOT_LOCAL), s.loc(), "")
+        ctx.ob("local", "no AddProvider event for the local node as provider", lk.passes(pr, s.bb, NOT_LOCAL), s.loc(), "")
         t = R(pr, s)
         if "record: std::option::Option::Some" in t:
             ctx.ob("local", "the record offered to the application names the verified node_id", "record: std::option::Option::Some{0: " + REC in t, s.loc(), t[-220:])
@@ -109,8 +107,8 @@ def check(ctx):
         reach = pr.reachable(tg(IS_LOCAL))
         bad_calls = [x for x in pr.call_sites() if x.bb in reach and re.search(r"RecordStore|VecDeque::push_back$", strip_generics(pr.call_name(x.term)))]
         ctx.ob("local", "the local node announced as provider changes nothing", not bad_calls, lk.where(pr), str([R(pr, x)[:80] for x in bad_calls]))
-    other = [s for s in store_calls(pr) if s not in ap]
-    ctx.ob("local", "provider_received touches the store only through add_provider", not other, lk.where(pr), str([R(pr, x)[:60] for x in other]))
+    other = [s for s in store_calls(pr) if s not in ap and re.search(r"::(put|remove|remove_provider)$", strip_generics(pr.call_name(s.term)))]
+    ctx.ob("local", "provider_received changes the store only through add_provider", not other, lk.where(pr), str([R(pr, x)[:60] for x in other]))
     who = sorted({s.body.npath for s in prog.callers(K, r"record::store::RecordStore::add_provider$|RecordStore>::add_provider$") if "record::store::memory" not in s.body.npath})
     ctx.ob("local", "add_provider called only by provider_received and start_providing", who == ["libp2p_kad::behaviour::Behaviour::provider_received", "libp2p_kad::behaviour::Behaviour::start_providing"], msg=str(who))
     sp = ctx.body(K, BH + r"start_providing$")
@@ -118,7 +116,7 @@ def check(ctx):
         a = render(sp.site_expr(s)[2][1])
         ctx.ob("local", "start_providing stores the local node as provider", re.search(r"ProviderRecord::new\(.*, " + re.escape(LOCALKEY) + r", |provider: " + re.escape(LOCALKEY), a) is not None, s.loc(), a[:240])
     # ------------------------------------------------------------------ C: local publisher
-    PUB = r"^std::option::Option::as_ref\(record\.publisher\)$"
+    PUB = r"^std::option::Option::as_ref\(%s\.publisher\)$" % RECA
     LOC = "^" + re.escape("std::option::Option::Some{0: %s}" % LOCALKEY) + "$"
     NOT_PUB = eq_edges(rr, PUB, LOC, False)
     IS_PUB = eq_edges(rr, PUB, LOC, True)
@@ -126,16 +124,16 @@ def check(ctx):
     puts = [s for s in store_calls(rr) if strip_generics(rr.call_name(s.term)).endswith("::put")]
     ctx.floor("publisher", "store.put", puts, 1, exact=True)
     for s in puts:
-        ok = bool(NOT_PUB) and rr.must_pass_edges(s.bb, NOT_PUB)
+        ok = lk.passes(rr, s.bb, NOT_PUB)
         ctx.ob("publisher", "record_received: store.put only if the publisher is not the local node", ok, s.loc(),
                "every path to store.put passes the false edge of `record.publisher == Some(local)`" if ok else
                "a path reaches store.put although `record.publisher == Some(local)` held (the guard was weakened by a further condition or removed)")
         a = render(rr.site_expr(s)[2][1])
-        ctx.ob("publisher", "the stored record is the tested record", a == "libp2p_kad::<record::Record as std::clone::Clone>::clone(record)", s.loc(), a)
+        ctx.ob("publisher", "the stored record is the tested record", a == "libp2p_kad::<record::Record as std::clone::Clone>::clone(%s)" % RECA, s.loc(), a)
     evs = [s for s in rr.call_sites(r"VecDeque::push_back$") if "InboundRequest::PutRecord" in R(rr, s)]
     ctx.floor("publisher", "PutRecord events", evs, 2)
     for s in evs:
-        ctx.ob("publisher", "no PutRecord event (nothing offered for storing) for a record published by the local node", bool(NOT_PUB) and rr.must_pass_edges(s.bb, NOT_PUB), s.loc(), "")
+        ctx.ob("publisher", "no PutRecord event (nothing offered for storing) for a record published by the local node", lk.passes(rr, s.bb, NOT_PUB), s.loc(), "")
     if IS_PUB:
         reach = rr.reachable(tg(IS_PUB))
         sc = [x for x in store_calls(rr) if x.bb in reach and re.search(r"::(put|remove|add_provider|remove_provider)$", strip_generics(rr.call_name(x.term)))]
@@ -152,8 +150,28 @@ def check(ctx):
     ctx.ob("publisher", "record_received is called only from the inbound PutRecord handler", [s.body.npath for s in rc] == [h.npath], msg=str([s.body.short for s in rc]))
     for s in [x for x in rc if x.body is h]:
         t = R(h, s)
-        ctx.ob("publisher", "the tested record is the one carried by HandlerEvent::PutRecord", t == "libp2p_kad::behaviour::Behaviour::record_received(self, source, connection, event@PutRecord.request_id, event@PutRecord.record)", s.loc(), t)
+        ctx.ob("publisher", "the tested record is the one carried by HandlerEvent::PutRecord", EV + "@PutRecord.record" in [render(a) for a in h.site_expr(s)[2]], s.loc(), t)
     who = sorted({s.body.npath for s in prog.callers(K, r"record::store::RecordStore::put$|RecordStore>::put$") if "record::store::memory" not in s.body.npath})
     ctx.ob("publisher", "store.put called only by record_received and put_record", who == ["libp2p_kad::behaviour::Behaviour::put_record", "libp2p_kad::behaviour::Behaviour::record_received"], msg=str(who))
-    other = [s for s in store_calls(rr) if s not in puts]
-    ctx.ob("publisher", "record_received touches the store only through put", not other, lk.where(rr), str([R(rr, x)[:60] for x in other]))
+    other = [s for s in store_calls(rr) if s not in puts and re.search(r"::(remove|add_provider|remove_provider)$", strip_generics(rr.call_name(s.term)))]
+    ctx.ob("publisher", "record_received changes the store only through put", not other, lk.where(rr), str([R(rr, x)[:60] for x in other]))
+
+# thorough-tier sensitivity self-test (vrules/selftest.py): one-edit variants of the source that break the property
+MUTANTS = [
+    {"name": 'source check inverted', "file": 'protocols/kad/src/behaviour.rs',
+     "find": '                if provider.node_id != source {\n                    return;\n                }\n',
+     "replace": '                if provider.node_id == source {\n                    return;\n                }\n',
+     "expect": '^source/provider_received only for', "why": 'third-party provider records accepted'},
+    {"name": 'local provider check inverted', "file": 'protocols/kad/src/behaviour.rs',
+     "find": '        if &provider.node_id != self.kbuckets.local_key().preimage() {\n            let record = ProviderRecord {',
+     "replace": '        if &provider.node_id == self.kbuckets.local_key().preimage() {\n            let record = ProviderRecord {',
+     "expect": '^local/add_provider only if', "why": 'local node stored as remote provider'},
+    {"name": 'publisher check inverted', "file": 'protocols/kad/src/behaviour.rs',
+     "find": '        if record.publisher.as_ref() == Some(self.kbuckets.local_key().preimage()) {',
+     "replace": '        if record.publisher.as_ref() != Some(self.kbuckets.local_key().preimage()) {',
+     "expect": '^publisher/record_received: store.put only if', "why": 'own record overwritten by replication'},
+    {"name": 'source check removed', "file": 'protocols/kad/src/behaviour.rs',
+     "find": '                if provider.node_id != source {\n                    return;\n                }\n',
+     "replace": '',
+     "expect": '^source/provider_received only for', "why": 'third-party provider records accepted'},
+]
